@@ -1154,8 +1154,21 @@ package trzsz
 //@ # is connected (never switched on), the protocol version is lowered to what the relay understands
 //@ # (never raised), the tmux junk flag is OR-ed with the relay's own tmux mode, and a missing pane
 //@ # width is filled in. Every other field is passed on unchanged.
+//@ # C14: a failure of any step of the relay's handshake reaches the deferred reporter (which tells both
+//@ # ends and then flushes): whenever a step failed, the error variable it looks at is set
+//@ func TrzszRelay.handshake$1
+//@   ghostvar told bool = false
+//@   after TrzszRelay.sendError set told = true
+//@   ensures [C14] old(err) != nil ==> told
+//@ end
 //@ func TrzszRelay.handshake
 //@   requires relayBufs(r)
+//@   ghostvar failed bool = false
+//@   after TrzszRelay.recvAction set failed = failed || r1 != nil
+//@   after TrzszRelay.sendAction set failed = failed || r0 != nil
+//@   after TrzszRelay.recvConfig set failed = failed || r1 != nil
+//@   after TrzszRelay.sendConfig set failed = failed || r0 != nil
+//@   before TrzszRelay.handshake$1 assert [C14] failed ==> err != nil
 //@   before TrzszRelay.sendAction assert [C14] p0 == result_of("TrzszRelay.recvAction", 0, 0) && \
 //@       (p0.SupportBinary ==> p0.TunnelConnected && after("TrzszRelay.recvAction", 0, p0.SupportBinary)) && \
 //@       p0.Protocol <= kProtocolVersion && p0.Protocol <= after("TrzszRelay.recvAction", 0, p0.Protocol) && \
